@@ -229,7 +229,9 @@ class Association(threading.Thread):
         if self._sent_abort:
             return
 
-        if self.is_released:
+        # Nothing to abort if the association has already been released, or aborted
+        #   by the peer, a lost connection or a timeout
+        if self.is_released or self.is_aborted:
             return
 
         # Set before restarting the reactor to prevent race condition
@@ -745,9 +747,13 @@ class Association(threading.Thread):
                 LOGGER.info(log_msg)
                 # Ensure that EVT_ASCE_RECV fires for subscribers
                 self.dul.receive_pdu(wait=False)
-                self.is_aborted = True
-                self.is_established = False
-                evt.trigger(self, evt.EVT_ABORTED, {})
+                # The association may already have been ended by a local
+                #   release() or abort(), which have notified the subscribers
+                if not self.is_released:
+                    self.is_aborted = True
+                    self.is_established = False
+                    if not self._sent_abort:
+                        evt.trigger(self, evt.EVT_ABORTED, {})
                 self.kill()
                 return
 
